@@ -26,7 +26,7 @@ RULE = ("2 of 3 runs: clock sweep - one bundled tariff x one of the 14 calendar-
 PROBES = ["lookups", "near_breakpoint", "season_edge_crossed", "weekday_class_midnight", "year_wrap_crossed", "leap_day",
           "world_runs", "get_prices_start0_later", "get_prices_explicit_start", "demand_charge_query", "energy_cost_checked",
           "winter_pge", "aware_two_zone_lookup", "explicit_tariff_cost_checked", "price_vector_scribbled", "vector_longer_than_a_year", "host_tz_non_utc", "breakpoint_minute_sweep"]
-FAULT_DIMENSION = "none - the simulated clock is swept across the calendar (inputs, not faults)"
+FAULT_DIMENSION = "environment: host time zone (with DST nights), a working directory holding same-named tariff files with other rates; the simulated clock is swept across the calendar"
 REAL_VS_STUB = "real: TimeOfUseTariff + bundled JSON files, Interface.get_prices/get_demand_charge, analysis.energy_cost/demand_charge, Simulator; reference reads the JSON files itself"
 ASSUMPTIONS = ["prices compared exactly (they are copied from the file, never computed)", "costs within 1e-9 relative"]
 _CACHE = {}
@@ -35,7 +35,9 @@ _CACHE = {}
 def tariff_obj(name):
     from acnportal.signals.tariffs.tou_tariff import TimeOfUseTariff
     if name not in _CACHE:
-        _CACHE[name] = (TimeOfUseTariff(name), ref.load(sut.REPO, name))
+        from ..build import hostile_cwd
+        with hostile_cwd(name):
+            _CACHE[name] = (TimeOfUseTariff(name), ref.load(sut.REPO, name))
     return _CACHE[name]
 
 
